@@ -142,7 +142,7 @@ def _mo_arg(inst, idx):
 def run(ctx):
     u = ctx.ast(UNIT)
     m = ctx.ir(UNIT)
-    P = ctx.program()
+    P = ctx.program_of("thread-link.cpp")
     ctx.rule("R06.1", "ATOMIC: write/read/read_lookahead are std::atomic; every access is an atomic load (acquire or seq_cst) or atomic store (release or seq_cst)")
     ctx.rule("R06.2", "PUBLISH-ORDER: no copy into (out of) the ring buffer is reachable after the store to `write` (`read`) in ring_write (ring_read)")
     ctx.rule("R06.3", "INDEX-OWNERSHIP: `write` is stored only in functions reached solely from the producer API (+constructor); `read`/`read_lookahead` only from the consumer API (+constructor)")
